@@ -322,7 +322,7 @@ def c06(prop, tier, seed, core):
     work = os.path.join(core.WORK, prop)
     known_sigs = [e["signature"] for e in core.known_for(prop)]
     # several roots that continue one and the same trace id, a span over all of them
-    add_hostile(m, core, prop, work, tier, ["shared-trace-id", "shared-trace-id-cancelable", "many-cycles-before-finish", "many-cycles-before-finish-cancelable"], known_sigs)
+    add_hostile(m, core, prop, work, tier, ["shared-trace-id", "shared-trace-id-cancelable", "many-cycles-before-finish", "many-cycles-before-finish-cancelable", "plain:early-local-collector"], known_sigs)
     m["rule"] = core.RULES["progsim"] + (" Two separate processes run 150 seeded rounds each in which 2-4 roots continue the SAME trace id, a span is created over all of "
                                           "them, events and properties are attached by every route with collector cycles in between, and every copy of the span (told "
                                           "apart by its parent id) must carry each attachment exactly once.")
